@@ -390,7 +390,37 @@ func onlyVia(fn *ssa.Function, target *ssa.BasicBlock, p func(Fact) bool) bool {
 	}
 	// both traversals over-approximate the feasible paths; the second one understands conditions
 	// that were first stored in a boolean local (materialised && / ||)
-	return !reachEntryP(fn, p)[target]
+	if !reachEntryP(fn, p)[target] {
+		return true
+	}
+	// an extracted helper: the guard may sit in front of its (only) call
+	return onlyViaCallers(fn, p, 0)
+}
+
+// onlyViaCallers: fn is a helper with static callers of the same package only, and every call of
+// it is reachable only through edges carrying p (facts about the caller's values; rules that
+// compare values by access path see the helper's parameters as the arguments, bindParam).
+func onlyViaCallers(fn *ssa.Function, p func(Fact) bool, depth int) bool {
+	if gWorld == nil || depth > 1 || fn.Parent() != nil {
+		return false
+	}
+	edges := gWorld.CG().In[fn]
+	if len(edges) == 0 {
+		return false
+	}
+	for _, e := range edges {
+		site, ok := e.Site.(ssa.CallInstruction)
+		if !ok || e.Kind != "static" || e.Caller == fn || fnPkgPath(e.Caller) != fnPkgPath(fn) {
+			return false
+		}
+		if !reachEntry(e.Caller, factCut(p))[site.Block()] || !reachEntryP(e.Caller, p)[site.Block()] {
+			continue
+		}
+		if !onlyViaCallers(e.Caller, p, depth+1) {
+			return false
+		}
+	}
+	return true
 }
 
 // returnsOf lists the Return instructions of fn.
@@ -465,7 +495,46 @@ func funcObjName(o *types.Func) string {
 }
 
 // resultOfCall: if v is (a component of) the result of a call, return the call and component index.
+// gWorld is the loaded program (set by Load); used by primitives that need the call graph.
+var gWorld *World
+
+// bindParam: a parameter of a helper that is called from exactly one place (a static call in the
+// module) denotes, for the purposes of the checks, the argument passed there. Used to look
+// through small extracted helpers (predicates, "store"/"fail" methods). Anything else is
+// returned unchanged.
+func bindParam(v ssa.Value) ssa.Value {
+	for i := 0; i < 3; i++ {
+		p, ok := v.(*ssa.Parameter)
+		if !ok || gWorld == nil || p.Parent() == nil {
+			return v
+		}
+		fn := p.Parent()
+		edges := gWorld.CG().In[fn]
+		if len(edges) != 1 || edges[0].Kind != "static" || edges[0].Caller == fn || fnPkgPath(edges[0].Caller) != fnPkgPath(fn) {
+			return v
+		}
+		ci, ok := edges[0].Site.(ssa.CallInstruction)
+		if !ok {
+			return v
+		}
+		idx := -1
+		for k, q := range fn.Params {
+			if q == p {
+				idx = k
+			}
+		}
+		if idx < 0 || idx >= len(ci.Common().Args) {
+			return v
+		}
+		v = stripConv(ci.Common().Args[idx])
+	}
+	return v
+}
+
 func resultOfCall(v ssa.Value) (*ssa.Call, int) {
+	if _, isParam := v.(*ssa.Parameter); isParam {
+		v = bindParam(v)
+	}
 	switch x := v.(type) {
 	case *ssa.Call:
 		return x, 0
@@ -1048,10 +1117,82 @@ func reachEntryP(fn *ssa.Function, p func(Fact) bool) map[*ssa.BasicBlock]bool {
 }
 
 func phiAwareReach(b *ssa.BasicBlock, i int, entry *ssa.BasicBlock, p func(Fact) bool) map[*ssa.BasicBlock]bool {
-	type edge struct {
-		from *ssa.BasicBlock
-		idx  int
+	seen, _ := phiAwareReachT(b, i, entry, p, 0)
+	return seen
+}
+
+type cfgEdge struct {
+	from *ssa.BasicBlock
+	idx  int
+}
+
+// predicateCut: every way for the boolean helper `callee` to return `truth` passes a fact
+// satisfying p (or there is no such way): a call of it evaluating to `truth` is then as good as
+// an edge carrying p. The helper's single return value is examined like a branch condition.
+func predicateCut(callee *ssa.Function, truth bool, p func(Fact) bool, depth int) bool {
+	if callee == nil || callee.Blocks == nil || depth > 2 {
+		return false
 	}
+	rets := returnsOf(callee)
+	if len(rets) != 1 || len(rets[0].Results) != 1 || !isBoolT(rets[0].Results[0].Type()) {
+		return false
+	}
+	seen, trav := phiAwareReachT(nil, 0, callee.Blocks[0], p, depth+1)
+	rb := rets[0].Block()
+	if !seen[rb] {
+		return true
+	}
+	rv := rets[0].Results[0]
+	for {
+		u, isNot := rv.(*ssa.UnOp)
+		if !isNot || u.Op != token.NOT {
+			break
+		}
+		rv, truth = u.X, !truth
+	}
+	accepts := func(v ssa.Value) bool {
+		for _, f := range condFacts(v, truth) {
+			if p(f) {
+				return true
+			}
+		}
+		return false
+	}
+	phi, isPhi := rv.(*ssa.Phi)
+	if !isPhi || phi.Block() != rb {
+		if k, isConst := rv.(*ssa.Const); isConst && k.Value != nil && k.Value.Kind() == constant.Bool {
+			return constant.BoolVal(k.Value) != truth
+		}
+		return accepts(rv)
+	}
+	nCand := 0
+	for j, pred := range rb.Preds {
+		traversed := false
+		for k, sb := range pred.Succs {
+			if sb == rb && trav[cfgEdge{pred, k}] {
+				traversed = true
+			}
+		}
+		if !traversed {
+			continue
+		}
+		e := phi.Edges[j]
+		if k, isConst := e.(*ssa.Const); isConst && k.Value != nil && k.Value.Kind() == constant.Bool {
+			if constant.BoolVal(k.Value) == truth {
+				return false
+			}
+			continue
+		}
+		nCand++
+		if !accepts(e) {
+			return false
+		}
+	}
+	return true
+}
+
+func phiAwareReachT(b *ssa.BasicBlock, i int, entry *ssa.BasicBlock, p func(Fact) bool, depth int) (map[*ssa.BasicBlock]bool, map[cfgEdge]bool) {
+	type edge = cfgEdge
 	trav := map[edge]bool{}
 	seen := map[*ssa.BasicBlock]bool{}
 	if b != nil {
@@ -1064,6 +1205,14 @@ func phiAwareReach(b *ssa.BasicBlock, i int, entry *ssa.BasicBlock, p func(Fact)
 		for _, f := range edgeFacts(blk, si) {
 			if p(f) {
 				return true
+			}
+			// a boolean helper all of whose ways to this outcome carry p
+			if f.Kind == FTrue || f.Kind == FFalse {
+				if c, isCall := f.V.(*ssa.Call); isCall && gWorld != nil {
+					if callee := c.Common().StaticCallee(); callee != nil && callee.Blocks != nil && gWorld.inModule(callee) && predicateCut(callee, f.Kind == FTrue, p, depth) {
+						return true
+					}
+				}
 			}
 		}
 		if len(blk.Instrs) == 0 {
@@ -1144,5 +1293,5 @@ func phiAwareReach(b *ssa.BasicBlock, i int, entry *ssa.BasicBlock, p func(Fact)
 			}
 		}
 	}
-	return seen
+	return seen, trav
 }
